@@ -28,7 +28,7 @@ calls is left to the implementation by PEP 634 - CPython itself mixes iteration 
 """
 import itertools
 from vlib import e2, farm
-from props._g6_common import ConfirmCtx
+from props._g6_common import ConfirmCtx, run_diff, storm_note
 
 LEVEL = 'exploration'
 ENGINE = 'E2 diffexplore'
@@ -265,7 +265,7 @@ def run(ctx):
     mods = [e2.Mod('c31_%d' % (i // PER_MODULE), PRELUDE, parts[i:i + PER_MODULE], inputs, ext='.py', use_log=True)
             for i in range(0, len(parts), PER_MODULE)]
     cc = ConfirmCtx(ctx, _keyfn)
-    st = e2.run_diff(cc, mods, keyfn=_keyfn, reach=REACH)
+    st = run_diff(cc, mods, keyfn=_keyfn, reach=REACH)
     cov = {
         'evaluations': st['evaluations'], 'distinct_nontrivial': st['pairs'],
         'rule': 'a case is counted once per distinct (statement, reference outcome = chosen case + bindings + protocol log) pair: '
@@ -276,9 +276,10 @@ def run(ctx):
         'mismatches': st['mismatches'], 'crashes': st['crashes'], 'build_failures': st['build_failures'],
         'crashes_not_reproduced_on_replay': cc.unreproduced,
         'reach': st.get('reach'), 'reach_gaps': st.get('reach_gaps'),
-        'samples': [{'tag': t, 'function': s} for t, s in (srcs[40], srcs[len(srcs) // 2], srcs[-3])],
+        'samples': [{'tag': t, 'function': s} for t, s in (srcs[min(40, len(srcs) - 1)], srcs[len(srcs) // 2], srcs[-min(3, len(srcs))])],
         'exhaustive': True,
     }
+    storm_note(cov, st)
     return cov, ['patterns deeper than the bound, more than 3 cases, cdef-typed subjects are not covered']
 
 
